@@ -141,7 +141,7 @@ def one_sequence(run, drv, rng, nops):
                          "lock", "unlock", "apply_", "zero_", "create_nested", "update_clone", "to_double", "select_inplace", "exclude_inplace"])
         desc = op
         try:
-            with time_limit(20):
+            with time_limit(60):
                 if op in ("set", "setitem"):
                     k = rand_key(rng, existing)
                     v, kind = rand_tensor(rng)
